@@ -1,5 +1,6 @@
 """C18 - parsers are total: panic-site inventory and discharge (E2 + E4)."""
 import re
+from .. import tables as T
 from ..terms import short, is_int, Int
 from ..walk import Walker, cname, Budget
 from ..common import describe_path
@@ -147,15 +148,25 @@ def run(ctx, chk):
     # roots: reachable non-closure bodies that are not nested inside another reachable fn
     fn_defs = sorted(d for d in reach if db.bodies[d].kind != "Closure")
     roots = []
+    callers = {}
+    for u in reach:
+        for v in cg.edges.get(u, ()):
+            callers.setdefault(v, set()).add(u)
     for d in fn_defs:
         nested = any(d != o and d.startswith(o + "::") for o in fn_defs)
-        if not nested:
+        b = db.bodies[d]
+        # a private helper (module-level parse helper, fn in a private `mod detail`) is analysed inline in each of its
+        # callers, with their facts - not on its own with unconstrained arguments
+        helper = b.impl_trait is None and getattr(b, "vis", None) != "pub" and b.name not in ("from_str", "deserialize", "try_from", "new") \
+            and any(c != d and not c.startswith(d + "::") for c in callers.get(d, ()))
+        if not nested and not helper:
             roots.append(d)
     chk.stats["roots"] = len(roots)
     loops_seen = {}
     for d in roots:
         body = db.bodies[d]
-        owned = [x for x in reach if x == d or x.startswith(d + "::")]
+        hs = T.helpers_of(ctx, body)
+        owned = [x for x in reach if x == d or x.startswith(d + "::") or x in hs]
         has_sites = any((x, bb) in inventory for x in owned for bb in range(len(db.bodies[x].blocks)))
         has_loops = any(db.bodies[x].loops() for x in owned)
         if not has_sites and not has_loops:
@@ -258,7 +269,7 @@ def walk_root(ctx, body):
     last = None
     for rnd in range(20):
         w = ctx.walker(max_depth=4)
-        w.no_inline = lambda p, d=body.defp: not p.startswith(d + "::")
+        w.no_inline = lambda p, hs=T.helpers_of(ctx, body): p not in hs
         inv.install(w, body_strs)
         res = w.walk(body)
         dropped = inv.check(res, None)
@@ -268,7 +279,7 @@ def walk_root(ctx, body):
     # not stable: fall back to no invariants at all (sound: nothing assumed)
     inv.cands = {k: set() for k in inv.cands}
     w = ctx.walker(max_depth=4)
-    w.no_inline = lambda p, d=body.defp: not p.startswith(d + "::")
+    w.no_inline = lambda p, hs=T.helpers_of(ctx, body): p not in hs
     inv.install(w, body_strs)
     return w.walk(body), inv, 99
 
